@@ -10,6 +10,7 @@ import translate_parametric
 import translate_free
 import translate_kernels
 import translate_glue
+import translate_ctor
 
 
 def gen_arith():
@@ -48,4 +49,8 @@ def gen_glue():
     return translate_glue.translate(os.path.join(PKG, "pba/pbox_abc.py"))
 
 
-ALL = [("GenGlue", gen_glue), ("GenKernels", gen_kernels), ("GenFree", gen_free), ("GenParametric", gen_parametric), ("GenDispatch", gen_dispatch), ("GenArith", gen_arith), ("GenParams", gen_params), ("GenHedge", gen_hedge), ("GenKS", gen_ks)]
+def gen_ctor():
+    return translate_ctor.translate(PKG)
+
+
+ALL = [("GenCtor", gen_ctor), ("GenGlue", gen_glue), ("GenKernels", gen_kernels), ("GenFree", gen_free), ("GenParametric", gen_parametric), ("GenDispatch", gen_dispatch), ("GenArith", gen_arith), ("GenParams", gen_params), ("GenHedge", gen_hedge), ("GenKS", gen_ks)]
